@@ -36,7 +36,7 @@ bool ops_codec(Ctx& c, const json& s, int idx, bool& handled) {
 	// ---- C04: long inputs, decoded by the specification's state machine (spec/LzhMachine.tla); output compared by length + checksum ----
 	if (op == "lzh_long") { const std::string kind = s["kind"]; std::size_t len = s["len"]; std::vector<unsigned char> in(len);
 		for (std::size_t i = 1; i <= len; ++i) in[i - 1] = (unsigned char)(kind == "zero" ? 0 : kind == "ff" ? 255 : kind == "aa" ? 170 : kind == "lcg" ? ((i * 1103 + (i / 7) * 12345 + 7) / 3) % 256 : (i * 37) % 256);
-		const unsigned long long wantLen = s["outLen"]; const bool wantErr = s["err"]; alarm(600);
+		const unsigned long long wantLen = s["outLen"]; const bool wantErr = s["err"]; Proto::watchdog(600);
 		// drain schedules: a seeded mixture of both interfaces, the internal-buffer interface alone, and fixed GetData sizes; the small sizes keep
 		// the decoder's 4 KiB queue as full as its fill threshold allows, which is where a wrong threshold lets a long match overrun unread bytes
 		struct Mode { const char* name; long size; };
@@ -60,7 +60,7 @@ bool ops_codec(Ctx& c, const json& s, int idx, bool& handled) {
 			if (err && n > wantLen) { Proto::mismatch(msite, "bytes-beyond-capacity", note()); return false; } }      // what was delivered before the error is a prefix of the reference output
 		return true; }
 	// ---- C04: a run of `count` equal literals, encoded with the real tree, across the capacity of the tree's counters ---------------
-	if (op == "lzh_literal_run") { const unsigned sym = s["sym"]; const std::size_t count = s["count"]; alarm(120); std::size_t padCodes = 0;
+	if (op == "lzh_literal_run") { const unsigned sym = s["sym"]; const std::size_t count = s["count"]; Proto::watchdog(120); std::size_t padCodes = 0;
 		std::vector<unsigned char> in; unsigned acc = 0; int nb = 0; { Archive::AdaptiveHuffmanTree enc(314);
 			for (std::size_t k = 0; k < count; ++k) { unsigned bc = 0; unsigned bits = enc.GetEncodedBitString((unsigned short)sym, bc); for (unsigned i = 0; i < bc; ++i) { acc = (acc << 1) | ((bits >> i) & 1); if (++nb == 8) { in.push_back((unsigned char)acc); acc = 0; nb = 0; } }
 				try { enc.UpdateCodeCount((unsigned short)sym); } catch (const std::exception&) { /* the encoder side hits the same capacity; the remaining codes keep the last path */ } }
